@@ -681,7 +681,7 @@ class ExtraOps:
             return lambda: ops[0].rel.chain(ops[1].rel)
         if k == "join":
             kw = {x: bool(op[y]) for x, y in (("backtrack", "bt"), ("transfer", "tr")) if y in op}
-            if op.get("direct"):
+            if op.get("direct") and not op.get("cc"):
                 def call_direct():
                     from lsst.daf.relation import Join as _Join
 
